@@ -136,3 +136,48 @@ def s_tryfn(g, depth):
     for a in args:
         L.append("try { print(%s(%d)); } catch ex { print(\"escaped\"); print(type(ex)); }" % (name, a))
     return L
+
+
+def xmod_program(rng):
+    """exceptions crossing module boundaries in both directions: thrown in an imported module's function (explicitly, by a
+    failing built-in, from depth, from a method) and handled in main, and thrown by a closure of main while an imported
+    function is calling it and handled either in the module or back in main. Both modules have globals of the same names,
+    and every handler / finally block / statement after the try reads and writes its own module's globals."""
+    r = rng
+    lib = ["var label = \"lib\";", "var count = 100;", "var log = [];",
+           "fn deep(n) { if n <= 0 { throw \"deep\"; } return deep(n - 1); }",
+           "fn fail(kind) {", "    count = count + 1;", "    if kind == 0 { throw \"explicit\"; }", "    if kind == 1 { return nil + 1; }",
+           "    if kind == 2 { return [1][5]; }", "    if kind == 3 { return deep(3); }", "    if kind == 4 { return {}.get(\"k\"); }",
+           "    if kind == 5 { throw ValueError.new(label); }", "    return [label, count];", "}",
+           "fn call_back(f) { count = count + 1; var got = f(label); count = count + 10; return got; }",
+           "fn guarded(f) {", "    var res = nil;", "    try { res = f(label); }", "    catch e { count = count + 1000; log.push(label); res = [\"lib caught\", label, count]; }", "    return res;", "}",
+           "fn guarded_finally(f) {", "    var res = nil;", "    try { res = f(label); } finally { count = count + 5; log.push(label); }", "    return res;", "}",
+           "#[constructor(new)] class Thing { fn go(self, k) { return fail(k); } fn name(self) { return label; } }", "fn state() { return [label, count, log]; }"]
+    M = ["import \"xlib\" as xlib;", "var label = \"main\";", "var count = 0;", "var seen = [];"]
+    n = r.range(3, 8)
+    for i in range(n):
+        k = r.below(8)
+        kind = r.below(7)
+        after = r.choice(["count = count + 1; print([label, count]);", "seen.push(label); print(seen.len());", "var g%d = label + \"!\"; print(g%d);" % (i, i),
+                          "fn h%d() { return label; } print(h%d());" % (i, i), "print(xlib.state());"])
+        fin = r.choice(["", "", " finally { count = count + 7; print([\"fin\", label]); }"])
+        if k <= 2:
+            M.append("try { print(xlib.fail(%d)); } catch e { %s }%s" % (kind, after, fin))
+        elif k == 3:
+            M.append("fn w%d(k) { var local = \"L\"; var res = nil; try { res = xlib.fail(k); } catch e { count = count + 1; res = [local, label, count]; }%s return res; }" % (i, fin))
+            M.append("print(w%d(%d)); print(w%d(6));" % (i, kind, i))
+        elif k == 4:
+            M.append("try { print(xlib.call_back(|l| { if %s { throw \"from main closure\"; } return l + label; })); } catch e { %s }%s" % (
+                r.choice(["true", "false", "count > 1"]), after, fin))
+        elif k == 5:
+            M.append("print(xlib.guarded(|l| { %s return [l, label]; })); %s" % (r.choice(["throw \"x\";", "nil.foo;", ""]), after))
+        elif k == 6:
+            M.append("try { print(xlib.guarded_finally(|l| { %s return [l, label]; })); } catch e { %s }" % (r.choice(["throw \"y\";", "[].pop();", ""]), after))
+        else:
+            M.append("try { var th = xlib.Thing.new(); print(th.name()); print(th.go(%d)); } catch e { %s }%s" % (kind, after, fin))
+        if r.chance(40):
+            M.append("print([label, count]);")
+    M.append("print([label, count, seen]); print(xlib.state());")
+    if r.chance(25):
+        M.append("xlib.fail(%d);" % r.below(6))
+    return "\n".join(M) + "\n", [("xlib", "\n".join(lib) + "\n")]
